@@ -712,13 +712,14 @@ fn roundtrip(r: &Req) -> Result<String, String> {
             let full = |st: SolverStatus| matches!(st, SolverStatus::Solved | SolverStatus::PrimalInfeasible | SolverStatus::DualInfeasible);
             if full(a.status) && full(b.status) {
                 if a.status != b.status {
-                    // The loaded data differ from the saving solver's by the rounding of one
-                    // scale/unscale round trip (the statement allows exactly that).  A verdict is
-                    // comparable only when it is a function of the data to within that rounding:
-                    // re-solve the USER's problem with P, q, A and b moved by one ulp; if the saving
-                    // solver's own verdict flips, the instance decides nothing about save/load.
-                    if verdict_unstable(&p, &settings, a.status) {
-                        return Ok("ok:inconclusive-unstable-verdict".to_string());
+                    // Known finding KF-C19-capped-row-verdict (known_findings.json): with presolve off
+                    // a row whose b reaches the infinity bound is kept, capped at the bound; on such
+                    // data the verdict of the solve is not a function of the data to within the
+                    // rounding of the scale/unscale round trip.  The class is named in the message;
+                    // any other verdict mismatch is reported as it is.
+                    let cap = clarabel::get_infinity();
+                    if !reduced && p.b.iter().any(|&v| v >= cap) {
+                        return Err(format!("KF-C19-capped-row-verdict status {:?} vs loaded {:?} (row capped at the infinity bound kept in the problem)", a.status, b.status));
                     }
                     return Err(format!("status {:?} vs loaded {:?}", a.status, b.status));
                 }
@@ -732,36 +733,6 @@ fn roundtrip(r: &Req) -> Result<String, String> {
         summary = format!("ok:{:?}", a.status);
     }
     Ok(summary)
-}
-
-/// does the verdict of the user's problem change when P, q, A and b move by one ulp?  (six fixed
-/// perturbation patterns; used only to classify an instance as numerically unstable)
-fn verdict_unstable(p: &Prob, settings: &DefaultSettings<f64>, verdict: SolverStatus) -> bool {
-    let nudge = |v: f64, up: bool| -> f64 {
-        if !v.is_finite() || v == 0.0 {
-            return v;
-        }
-        let b = v.to_bits();
-        f64::from_bits(if up == (v > 0.0) { b + 1 } else { b - 1 })
-    };
-    for k in 0..6u32 {
-        let q: Vec<f64> = p.q.iter().enumerate().map(|(i, &v)| if k % 3 == 2 && i % 2 == 0 { v } else { nudge(v, (k + i as u32) % 2 == 0) }).collect();
-        let b: Vec<f64> = p.b.iter().enumerate().map(|(i, &v)| if k % 3 == 1 && i % 2 == 1 { v } else { nudge(v, (k / 2 + i as u32) % 2 == 0) }).collect();
-        let (mut P, mut A) = (p.P.clone(), p.A.clone());
-        for (i, v) in P.nzval.iter_mut().enumerate() {
-            if k >= 1 { *v = nudge(*v, (k + 2 * i as u32) % 3 == 0); }
-        }
-        for (i, v) in A.nzval.iter_mut().enumerate() {
-            if k >= 1 { *v = nudge(*v, (k + i as u32) % 3 != 0); }
-        }
-        let pp = Prob { P, q, A, b, cones: p.cones.clone() };
-        let mut s = build(&pp, settings.clone());
-        s.solve();
-        if s.solution.status != verdict {
-            return true;
-        }
-    }
-    false
 }
 
 fn run_roundtrip(r: &Req) -> String {
@@ -2054,6 +2025,21 @@ fn generate_cones(s: &mut Session) {
 }
 
 fn generate(s: &mut Session) {
+    // the recorded finding KF-C19-capped-row-verdict (known_findings.json): its replays run first on
+    // every run; while the defect is present they fail and are reported as KNOWN-FINDING
+    if !s.is_searching() {
+        for f in ["finding-capped-row-1.json", "finding-capped-row-2.json"] {
+            let path = format!("{}/../findings/C19-capped-row-verdict/{}", env!("CARGO_MANIFEST_DIR"), f);
+            if let Ok(text) = std::fs::read_to_string(&path) {
+                if let Ok(v) = serde_json::from_str::<serde_json::Value>(&text) {
+                    if let Some(line) = v["input"].as_str() {
+                        s.count("corpus:KF-C19-capped-row-verdict");
+                        s.submit(line.to_string());
+                    }
+                }
+            }
+        }
+    }
     // ---- json.sanitize: the special values and random ones
     let specials = [f64::INFINITY, f64::MAX, f64::NEG_INFINITY, -f64::MAX, 0.0, -0.0, 1.0, 1e308, f64::NAN, f64::MIN_POSITIVE,
         f64::from_bits(f64::MAX.to_bits() - 1), 3600.0];
